@@ -77,35 +77,46 @@ Check(e) ==
          /\ e.cm = CommitOf(P, e.r)
          /\ e.z = RespOf(P, e.r, E1, e.w) /\ e.ok /\ AccP(P, e.x, e.cm, e.e, e.z)         \* completeness
          /\ e.z2 = RespOf(P, e.r, E2, e.w) /\ e.ok2 /\ AccP(P, e.x, e.cm, e.e2, e.z2)
-         /\ e.hasx => /\ e.xok <=> CanExtract(E1, E2)                                     \* special soundness
-                      /\ e.xok => e.wx = e.w /\ e.wx = MExtract(E1, e.z, E2, e.z2) /\ StmtOf(P, e.wx) = e.x
+         /\ e.hasx => (/\ e.xok <=> CanExtract(E1, E2)                                    \* special soundness
+                       /\ e.xok => (e.wx = e.w /\ IsExtract(E1, e.z, E2, e.z2, e.wx) /\ StmtOf(P, e.wx) = e.x))
          /\ e.sa = SimOf(P, e.x, SE, e.sz) /\ e.sok /\ AccP(P, e.x, e.sa, e.se, e.sz)     \* simulated transcripts verify
     [] e.a = "vfy" -> e.ok <=> AccP(e.P, e.x, e.cm, e.e, e.z)
     [] e.a = "ext" ->
          LET E1 == RedBytes(e.e)  E2 == RedBytes(e.e2) IN
          /\ e.ok <=> (AccP(e.P, e.x, e.cm, e.e, e.z) /\ AccP(e.P, e.x, e.cm, e.e2, e.z2) /\ CanExtract(E1, E2))
-         /\ e.ok => e.wx = MExtract(E1, e.z, E2, e.z2) /\ StmtOf(e.P, e.wx) = e.x
+         /\ e.ok => (IsExtract(E1, e.z, E2, e.z2, e.wx) /\ StmtOf(e.P, e.wx) = e.x)
     [] e.a = "and" ->
          /\ ~e.panic
-         /\ e.ok <=> /\ \A i \in 1..Len(e.lens) : e.lens[i] = Len(e.brs)
-                     /\ \A i \in 1..Len(e.brs) : LET b == e.brs[i] IN AccP(b.P, b.x, b.cm, Prefix(e.e, b.el), b.z)
+         /\ e.variant \in {"honest", "sim"} => e.ok          \* completeness; simulated transcripts verify
+         /\ e.ok <=> (/\ \A i \in 1..Len(e.lens) : e.lens[i] = Len(e.brs)
+                      /\ \A i \in 1..Len(e.brs) : LET b == e.brs[i] IN AccP(b.P, b.x, b.cm, Prefix(e.e, b.el), b.z))
     [] e.a = "or" ->
          /\ ~e.panic
-         /\ e.ok <=> /\ \A i \in 1..Len(e.lens) : e.lens[i] = Len(e.brs)
-                     /\ Len(e.e) = e.cl
-                     /\ \A i \in 1..Len(e.brs) : Len(e.brs[i].e) = e.cl
-                     /\ XorAllBytes([i \in 1..Len(e.brs) |-> e.brs[i].e], Len(e.brs)) = e.e
-                     /\ \A i \in 1..Len(e.brs) : LET b == e.brs[i] IN AccP(b.P, b.x, b.cm, Prefix(b.e, b.el), b.z)
+         /\ e.variant \in {"honest", "sim"} => e.ok          \* an OR proof with exactly one witness verifies; so does a simulated one
+         /\ e.ok <=> (/\ \A i \in 1..Len(e.lens) : e.lens[i] = Len(e.brs)
+                      /\ Len(e.e) = e.cl
+                      /\ \A i \in 1..Len(e.brs) : Len(e.brs[i].e) = e.cl
+                      /\ XorAllBytes([i \in 1..Len(e.brs) |-> e.brs[i].e], Len(e.brs)) = e.e
+                      /\ \A i \in 1..Len(e.brs) : LET b == e.brs[i] IN AccP(b.P, b.x, b.cm, Prefix(b.e, b.el), b.z))
     [] e.a = "ni" ->
          /\ ~e.panic
          /\ e.ok <=> (IF e.exact THEN AcceptNI(e) ELSE AcceptTok(e))
     [] e.a = "zk" -> ~e.panic /\ (e.ok <=> ZkAccept(e))
     [] OTHER -> FALSE
 
+\* Every line is judged exactly once, when it is consumed; a rejected line is reported and the walk
+\* continues, so that one pass classifies the whole log (checks/C08.py turns every REJECT into a
+\* violation keyed by the case).  "case": the code's result differs from the specification's;
+\* "prop": the result matches the acceptance predicate but not the property as stated.
+Judge(e, i) == /\ IF Check(e) THEN TRUE ELSE PrintT(<<"REJECT", i, "case">>)
+               /\ IF e.a = "ni" THEN (IF Property(e) THEN TRUE ELSE PrintT(<<"REJECT", i, "prop">>)) ELSE TRUE
 Init == l = 1
-Next == l <= Len(Trace) /\ l' = l + 1
+Next == l <= Len(Trace) /\ Judge(Trace[l], l) /\ l' = l + 1
 Spec == Init /\ [][Next]_vars
 
+\* the same as state predicates (not used by the cfg; see Judge)
 CaseOK == l <= Len(Trace) => Check(Trace[l])
 PropOK == l <= Len(Trace) /\ Trace[l].a = "ni" => Property(Trace[l])
+\* the walk ends after the last line
+Consumed == l <= Len(Trace) + 1
 =============================================================================
